@@ -526,7 +526,11 @@ class InventoryWorkingTree(WorkingTree, MutableInventoryTree):
                             else:
                                 message = backup(f)
                         else:
-                            if f in files_to_backup:
+                            if f in files_to_backup or (not fid and not force):
+                                # A file that is not versioned is unknown to us
+                                # (iter_changes does not report an unversioned
+                                # file at the path of a removed entry): never
+                                # delete it without --force.
                                 message = backup(f)
                             else:
                                 osutils.delete_any(abs_path)
